@@ -1,5 +1,6 @@
 import BqVerif.Model.RuntimeWitness
 import BqVerif.Model.FineWake
+import BqVerif.Model.MapArgs
 import BqVerif.Drivers.Util
 /-!
 Driver for the `runtime` machine (C07, C12, C15): replays the transition log of
@@ -134,6 +135,9 @@ def parseProg : List Nat → Option Prog
   | 4 :: k :: t => (parseProg t).map (Instr.cancel k :: ·)
   | 5 :: t => (parseProg t).map (Instr.raise :: ·)
   | 6 :: t => (parseProg t).map (Instr.ret :: ·)
+  | 7 :: n :: t =>
+    (parseProg (((t.drop n).drop 1).drop ((t.drop n).headD 0))).map
+      (Instr.mapArgs (t.take n) (((t.drop n).drop 1).take ((t.drop n).headD 0)) :: ·)
   | _ => none
 termination_by l => l.length
 decreasing_by all_goals simp_wf <;> omega
